@@ -428,6 +428,16 @@ func (e *Env) evalAddr(x ast.Expr) TV {
 			}
 			return TV{e.vc.fieldPtr(base.V.(Ptr), p.Elem(), path), types.NewPointer(ft)}
 		}
+		if _, isStruct := under(base.T).(*types.Struct); isStruct {
+			// field of a struct that is itself stored in memory: &(a.b).c
+			inner := e.evalAddr(x.X)
+			pt := under(inner.T).(*types.Pointer)
+			path, ft := findField(pt.Elem(), x.Sel.Name)
+			if path == nil {
+				e.fail(x, "no field %s", x.Sel.Name)
+			}
+			return TV{e.vc.fieldPtr(inner.V.(Ptr), pt.Elem(), path), types.NewPointer(ft)}
+		}
 	case *ast.IndexExpr:
 		base := e.eval(x.X)
 		if sl, ok := under(base.T).(*types.Slice); ok {
@@ -764,6 +774,20 @@ func (e *Env) evalCall(x *ast.CallExpr) TV {
 				if p := e.importedPkg(id.Name); p != nil {
 					if sf, ok := e.vc.eng.Specs[p.Path()+"."+sel.Sel.Name]; ok {
 						return e.callSpec(x, sf)
+					}
+					// functions with a `pure` contract are uninterpreted functions of their arguments
+					if fn := e.vc.eng.AllFuncs[p.Path()+"."+sel.Sel.Name]; fn != nil {
+						if ct := e.vc.eng.contractFor(fn); ct != nil && ct.Pure && fn.Signature.Results().Len() == 1 {
+							var avs []Val
+							var ats []types.Type
+							for k, a := range x.Args {
+								pt := fn.Signature.Params().At(k).Type()
+								avs = append(avs, e.coerce(e.eval(a), pt).V)
+								ats = append(ats, pt)
+							}
+							rt := fn.Signature.Results().At(0).Type()
+							return TV{e.vc.pureApp(fn.String(), rt, nil, nil, avs, ats), rt}
+						}
 					}
 					// pure library helpers
 					full := p.Path() + "." + sel.Sel.Name
